@@ -208,6 +208,35 @@ def _check_lms(g, wrules, V, exact, ctxlen, inp0, fails):
             evals += 1
             if isinstance(have, str) or not close(have, want, exact and name != "cky"):
                 fails.append(_fail(f"{name}: lm(x.EOS) == w(x)/Z", dict(inp0, backend=name, x=list(x)), have, want))
+    # multi-token extensions and sampling bookkeeping of the LM base class
+    for x in strings_upto(sorted(V), 2):
+        ext = x + (EOS,)
+        try:
+            want = ref.pw(ext) / Z
+            want_tail = (ref.pw(ext) / ref.pw(x[:1])) if len(x) >= 1 and ref.pw(x[:1]) != 0 else None
+        except NoConvergence:
+            continue
+        for name, lm in lms.items():
+            have = _call(lm.p_next_seq, (), ext)
+            evals += 1
+            if isinstance(have, str) or not close(have, want, exact and name != "cky"):
+                fails.append(_fail(f"{name}: p_next_seq((), x.EOS) == w(x)/Z", dict(inp0, backend=name, x=list(x)), have, want))
+            if want_tail is not None:
+                have = _call(lm.p_next_seq, x[:1], x[1:] + (EOS,))
+                evals += 1
+                if isinstance(have, str) or not close(have, want_tail, exact and name != "cky"):
+                    fails.append(_fail(f"{name}: p_next_seq(ctx, extension) == pw(ctx.extension)/pw(ctx)", dict(inp0, backend=name, x=list(x)), have, want_tail))
+            if want != 0:
+                script = list(ext)
+
+                def draw(p, script=script):
+                    return script.pop(0)
+
+                have = _call(lambda: lm.sample(draw=draw, prob=True))
+                evals += 1
+                ok = (not isinstance(have, str)) and tuple(have[0]) == tuple(x) and close(have[1], want, False)  # sample starts from the float 1.0
+                if not ok:
+                    fails.append(_fail(f"{name}: sample(...) returns the drawn string with its probability", dict(inp0, backend=name, x=list(x)), have, (x, want)))
     return evals, viable_nonempty
 
 
